@@ -106,6 +106,8 @@ class Impl(object):
         k = op[0]
         if k in ('add', 'remove'):
             hs = [op[1], op[2]]
+        elif k == 'insert':
+            hs = [op[1], op[3]]
         elif k == 'setparent':
             hs = [op[1]] + ([op[2]] if op[2] is not None else [])
         elif k.startswith('new'):
@@ -148,6 +150,9 @@ class Impl(object):
             I.append(m)
         elif k == 'removebyname':
             I[op[1]].children.remove_by_name(op[2], op[3])
+        elif k == 'insert':
+            # x.children.insert(i, c): the MutableSequence API (outside the model)
+            I[op[1]].children.insert(op[2], I[op[3]])
         elif k == 'addhelperchain':
             # h = x.n1...nk.add_<child>(name): the helper called on whatever the chain resolves to (outside the model)
             t = self.chain(op[1], op[2])
@@ -627,6 +632,54 @@ class Gen(object):
             # an inner repetition addressed from the end: -2 ... -n
             i = -rng.randint(2, n_have)
         d = self.depth_of(X)
+        if kind == 'delattr' and n_have and d < 2 and rng.random() < .5 and row[1] is not None:
+            # every repetition of the name is deleted by name, the child is created again, and then written below
+            # THROUGH the name: the write lands in the one repetition there is
+            txt = self.text_for(row, d, X.validation_level)
+            ref = row[1]
+            if ref[0] == 'sequence' and ref[1]:
+                c = rng.choice(ref[1][:4])
+                sub, subtxt = c[0].lower(), gen_text(rng, c[1], d + 1, self.impl.ec, False)
+            else:
+                sub = (ref[2] if len(ref) > 2 and ref[2] else 'ST').lower()
+                subtxt = rng.choice(leaf_pool(sub.upper()))
+            self.pending += [['delattr', x, [name]]] * (n_have - 1)
+            self.pending.append(['setattr', x, [name], ['t', txt]])
+            self.pending.append(['setattr', x, [name, sub], ['t', subtxt]])
+            if rng.random() < .5:
+                self.pending.append(['delindex', x, [name], 0])
+            return ['delattr', x, [name]]
+        if kind == 'addhelper' and X.classname == 'Field' and rng.random() < .6 and row[0] and '_' in row[0]:
+            # a component repeated with add_component, then assigned by POSITION at field level (pid_5_2 = ...): the
+            # first repetition is the one addressed
+            last = lambda g: len(g.impl.I) - 1
+            cname = row[0]
+            try:
+                pos = ('%s_%d' % (X.name, int(cname.rsplit('_', 1)[1]))).lower() if X.name else cname.lower()
+            except ValueError:
+                pos = cname.lower()
+            for val in ('u', 'w'):
+                self.pending.append(['addhelper', x, cname])
+                self.pending.append(lambda g, val=val: (['setvalue', last(g), val if g.impl.I[last(g)].validation_level != STRICT
+                                                          else '2020'] if not isinstance(g.impl.I[last(g)], Segment)
+                                                        else ['lenlist', 0]))
+            self.pending.append(['setattr', x, [pos if rng.random() < .8 else cname.lower()],
+                                 ['t', gen_text(rng, row[1], 1, self.impl.ec, False)]])
+            return self.pending.pop(0)
+        if kind == 'new' and d == 1 and rng.random() < .3:
+            # a component without a name of its own (called like its datatype), attached, whose datatype changes
+            # afterwards - directly, or from the field
+            last = lambda g: len(g.impl.I) - 1
+            dt0 = rng.choice(['ST', 'ST', 'ID'])
+            c = len(I)                   # the handle the component below is going to get
+            isc = lambda g: c < len(g.impl.I) and isinstance(g.impl.I[c], Component)
+            self.pending.append(lambda g: ['add', x, c] if isc(g) else ['lenlist', x])
+            if rng.random() < .7:
+                self.pending.append(lambda g: ['setdatatype', c, rng.choice(['ID', 'NM', 'ST', 'IS'])] if isc(g) else ['lenlist', x])
+            else:
+                self.pending.append(['setdatatype', x, rng.choice(['NM', 'ID', 'ST'])])
+            self.pending.append(['lenlist', x])
+            return ['newcomp', lvl, None, dt0]
         if kind == 'setattr':
             return ['setattr', x, [name], self.value_for(X, row)]
         if kind == 'setindex':
